@@ -244,6 +244,8 @@ package bigbuff
 //@   cond cond : mutex
 //@   ghost maxreq int
 //@   inv mutex nonneg : w.count >= 0
+//@   # Wait waits for count == 0: whoever makes it 0 broadcasts before releasing
+//@   notify-when mutex [C14] idle : w.count == 0
 //@   inv mutex alive : len(w.queue) > 0 ==> w.count >= 1 && w.target >= 1
 //@   inv mutex condset : w.count > 0 ==> w.cond != nil
 //@   inv mutex bound : w.count <= w.maxreq
@@ -320,6 +322,11 @@ package bigbuff
 //@   # function resets them (after <-x.done), so they are non-nil for as long as it runs.
 //@   rely alive : x.stop != nil && x.done != nil
 //@   at-call builtin.close#0 noholders : heldW(x.mu) && x.wg == nil && arg0 == x.stop
+//@   # each round takes the current group out of the worker (so later holders start a new one) and waits for it,
+//@   # with the lock released, before looking again
+//@   at-call (*sync.Mutex).Unlock#1 taken : x.wg == nil && wg != nil
+//@   at-call (*sync.WaitGroup).Wait#0 unlocked : nolocks()
+//@   loop 0 invariant waited : wg != nil ==> wgwaited(wg)
 //@   ensures reset : x.stop == nil && x.done == nil
 //@   # ... and reset only after the instance signalled its exit (do closes done as its last action)
 //@   write-when stop done exited : heldW(x.mu) && receivedfrom(x.done)
